@@ -22,6 +22,7 @@ import locale
 import os
 import warnings
 import time
+import contextlib
 
 
 def get_archive_path(path: pathlib.Path, root: pathlib.Path):
@@ -56,6 +57,18 @@ def make_root(root: pathlib.Path, is_zip: bool,
             pass
     else:
         root.mkdir(parents=True, exist_ok=True)
+
+
+@contextlib.contextmanager
+def _open_append(root, **kwargs):
+    """Open the existing zip file ``root`` to append members.
+
+    zipfile.ZipFile(root, "a") silently truncates ``root`` if opening it
+    for update fails, so open it explicitly to let the error propagate.
+    """
+    with open(root, "r+b") as fp:
+        with zipfile.ZipFile(fp, mode="a", **kwargs) as f:
+            yield f
 
 
 def find_zip_parent(path: pathlib.Path):
@@ -182,9 +195,8 @@ def pandas_to_pickle(obj, path: pathlib.Path,
             filepath = str(pathlib.Path(dirname).joinpath("temp"))
             obj.to_pickle(filepath)
             archive = get_archive_path(path, root)
-            with zipfile.ZipFile(
+            with _open_append(
                     root,
-                    mode="a",
                     **_compress_kwargs(compression, compresslevel)
                     ) as f:
                 if not _archive_exists(archive, f):
@@ -228,8 +240,8 @@ def write_file(callback, path: pathlib.Path, mode,
     if root:
         archive = get_archive_path(path, root)
         with get_io(mode) as buff:
-            with zipfile.ZipFile(
-                    root, mode="a",
+            with _open_append(
+                    root,
                     **_compress_kwargs(compression, compresslevel)
             ) as f:
                 if not _archive_exists(archive, f):
@@ -265,8 +277,8 @@ def copy_file(src: pathlib.Path, dst: pathlib.Path,
         arc_dst = get_archive_path(dst, root_dst)
         with zipfile.ZipFile(root_src, mode="r") as zip_src:
             with zip_src.open(arc_src, mode="r") as f_src:
-                with zipfile.ZipFile(
-                        root_dst, mode="a",
+                with _open_append(
+                        root_dst,
                         **_compress_kwargs(compression, compresslevel)
                         ) as zip_dst:
                     if not _archive_exists(arc_dst, zip_dst):
@@ -296,9 +308,9 @@ def copy_file(src: pathlib.Path, dst: pathlib.Path,
         retries = 3
         for i in range(retries):
             try:
-                with zipfile.ZipFile(root_dst, mode="a",
-                                     **_compress_kwargs(compression, compresslevel)
-                                     ) as zip_dst:
+                with _open_append(root_dst,
+                                  **_compress_kwargs(compression, compresslevel)
+                                  ) as zip_dst:
                     if not _archive_exists(arc_dst, zip_dst):
                         if is_valid_archive_path(arc_dst, zip_dst):
                             zip_dst.write(src, arc_dst)
